@@ -11,6 +11,7 @@ package main
 import (
 	"crypto/sha256"
 	"fmt"
+	"runtime"
 	"strings"
 	"sync"
 
@@ -37,6 +38,7 @@ type world struct {
 	pos int
 	vn  *vnWorld
 	pr  *prWorld
+	p0  *prWorld
 	ev  *evWorld
 	it  *itWorld
 }
@@ -89,7 +91,9 @@ func (w *world) exec(op string) (string, string) {
 		case "vr":
 			line, ans = w.execVR(f[1:])
 		case "pr":
-			ans = w.execPR(f[1:])
+			ans = w.execPR(f[1:], false)
+		case "p0":
+			ans = w.execPR(f[1:], true)
 		case "ev":
 			ans = w.execEV(f[1:])
 		case "it":
@@ -153,6 +157,9 @@ func (w *world) finish() {
 	if w.pr != nil {
 		w.pr.finish(w)
 	}
+	if w.p0 != nil {
+		w.p0.finish(w)
+	}
 	if w.ev != nil {
 		w.ev.finish(w)
 	}
@@ -197,6 +204,9 @@ func runAll(r *hx.Run, subs []uint64, cases [][]string, par int) {
 }
 
 func main() {
+	if runtime.GOMAXPROCS(0) < 4 {
+		runtime.GOMAXPROCS(4) // the races the stress sections look for need real parallelism
+	}
 	r := hx.Start()
 	r.MaxSamples = 6
 	r.Rule = "distinct by sha256 of the request lines; non-trivial = vn: a value used by two listener generations and a Wait answered; " +
@@ -221,7 +231,8 @@ func main() {
 	add(prCorpus...)
 	add(evCorpus...)
 	add(itCorpus...)
-	add([]string{"mn 0 0 3 1 0", "mn 2 1 4 0 0 1", "mn 0 0 2 2", "mn 1 0 5 0", "mn 0 2 3 3 1 2 0"})
+	add([]string{"mn 0 0 3 1 0", "mn 2 1 4 0 0 1", "mn 0 0 2 2", "mn 1 0 5 0", "mn 0 2 3 3 1 2 0",
+		"mn 18446744073709551615 0 3 9223372036854775808 1", "mn 9223372036854775807 1 2 0 18446744073709551614 9223372036854775806"})
 	gen := func(n int, g func(rng *hx.Rng) []string) {
 		for i := 0; i < n; i++ {
 			rng, sub := r.Rng.Fork()
@@ -231,7 +242,8 @@ func main() {
 	}
 	gen(40*r.Scale, genVR)
 	gen(1200*r.Scale, func(rng *hx.Rng) []string { return genVN(rng, 4+rng.Intn(24)) })
-	gen(1500*r.Scale, func(rng *hx.Rng) []string { return genPR(rng, 3+rng.Intn(14)) })
+	gen(1000*r.Scale, func(rng *hx.Rng) []string { return genPR(rng, 3+rng.Intn(14)) })
+	gen(700*r.Scale, func(rng *hx.Rng) []string { return genP0(rng, 3+rng.Intn(14)) })
 	gen(2500*r.Scale, func(rng *hx.Rng) []string { return genEV(rng, 6+rng.Intn(30)) })
 	gen(1500*r.Scale, genIT)
 	gen(150*r.Scale, genMN)
